@@ -4,15 +4,23 @@ UNIT = dict(
   header='#![allow(unused)]\n#![feature(allocator_api)]\nuse vstd::prelude::*;\nuse std::collections::VecDeque;\n',
   items=[
     ('laythe_core/src/object/channel/mod.rs', [
-      'enum SendResult', 'enum ReceiveResult', 'enum CloseResult',
+      'enum SendResult', 'enum ReceiveResult', 'enum CloseResult', 'enum ChannelKind', 'struct Channel',
     ]),
     ('laythe_core/src/object/channel/channel_queue.rs', [
       'enum ChannelQueueState', 'enum ChannelQueueKind', 'struct ChannelQueue',
       ('impl ChannelQueue', None),
       'fn find_runnable_waiter',
     ]),
+    # the Channel wrapper (direction restrictions) over the queue
+    ('laythe_core/src/object/channel/mod.rs', [('impl Channel', ['is_empty', 'len', 'capacity', 'close', 'is_closed', 'send', 'receive', 'runnable_waiter'])]),
   ],
   rewrites=[
+    ('R11', 'enum ChannelKind', dict(drop=['Debug'], add=['Structural', 'Eq'])),
+    ('R11', 'struct Channel', dict(drop=['PartialEq', 'Clone'])),
+    ('R7f', 'struct Channel'),
+    # R6: the queue is reached through a GC pointer (`Ref<ChannelQueue>`, Deref / DerefMut); in the unit the wrapper owns it — the methods
+    # verified here never copy the pointer (read_only / write_only, which do, are not extracted)
+    ('R6', 'struct Channel', dict(pat='queue: Ref<ChannelQueue>,', rep='queue: ChannelQueue,', count=1)),
     # R6: pre-allocation through std's panicking constructor goes through a stub carrying std's documented panic condition
     ('R6', 'ChannelQueue::with_capacity', dict(pat='VecDeque::with_capacity(', rep='verif_vecdeque_with_capacity(', optional=True)),
     # R7: single-file crate: private fields become visible to the contracts of pub fns
